@@ -46,6 +46,7 @@ GenNext ==
      \/ \E f \in {SomeFault} : ExchApply(f) /\ Rec("ExchApply", exch.c, "", <<>>, f, exch.r)
      \/ ExchApply(NoFault) /\ Rec("ExchApply", exch.c, "", <<>>, NoFault, exch.r)
      \/ ExchFinish /\ Rec("ExchFinish", "", "", <<>>, NoFault, "")
+     \/ \E s \in Stores : RandomElement(1..(3 + Z)) = 1 /\ Restart(s) /\ Rec("Restart", s, "", <<>>, NoFault, "")
 
 \* exhaustive variant (no -simulate): every sequence of MaxSteps pushes / local Sets, every batch, every fault
 GenNextAll ==
